@@ -113,7 +113,7 @@ def declare(reg):
             "plain-form-unrestricted": "implies(not cmd.uid_command, is_none(uid_msg_set))",
         }}},
         is_async=True,
-        props=["C06", "C05", "C15"],
+        props=["C06", "C05", "C15", "C01"],
     )
 
     # ---- Authenticated.do_select (C01): the queue of the previous selection is dropped BEFORE the new snapshot is taken ----
@@ -357,6 +357,9 @@ def declare(reg):
             "queue-empty-not-idling": f"len({PN}) == 0 and not self.idling",
         },
         modifies=["self.pending_notifications", "self.idling", "ClientProxy.g_out"],
+        # writing to the client is a suspension point: while the tagged OK is on its way the session must already count as not idling,
+        # or another session's EXPUNGE would be written straight to it behind the tagged line, outside of any command (C06: tagged line last)
+        ghost={"call_asserts": {"push": {"no-longer-idling-when-the-tagged-line-is-written": "not self.idling"}}},
         is_async=True, props=["C01", "C06"],
     )
     reg.contract(
@@ -385,7 +388,8 @@ def declare(reg):
         )
     reg.contract(
         C, "Authenticated.do_examine", params={"self": "ref:Authenticated", "cmd": "ref:IMAPClientCommand"}, ret="opt[str]",
-        requires={"from-parser": "cmd.mailbox_name == '' or safe_rel(rel_name(cmd.mailbox_name))", "has-server": "not is_none(self.server)"},
+        requires={"from-parser": "cmd.mailbox_name == '' or safe_rel(rel_name(cmd.mailbox_name))", "has-server": "not is_none(self.server)",
+                  "registered-only-where-selected": "forall(lambda m: implies(self.client.name in m.clients, self.state == ClientState.SELECTED and not is_none(self.mbox) and some(self.mbox) == m), 'ref:Mailbox')"},
         raises={"No": None, "Bad": None, "NoSuchMailbox": None},
         ghost={"call_asserts": {"do_select": {"read-only": "arg_examine and arg_cmd == cmd"}}},
         modifies=["self.pending_notifications", "self.idling", "self.state", "self.mbox", "self.examine", "self.select_while_selected_count", "Mailbox.clients", "ClientProxy.g_out"],
